@@ -463,8 +463,11 @@ func TestC19(t *testing.T) {
 		paths := []string{`exists($.*.double())`, `$.*.double()`, `$ ? (exists(@.*.double()))`, `$.*.datetime()`, `$.** ? (@.integer() > 0)`, `$.*.a`, `strict $.*.a`, `$.* > 1`, `strict $.* > 1`, `$.*.abs()`, `$.**.size()`,
 			`$.* starts with "x"`, `$.**{1 to last}.double()`, `$.*[0]`, `strict $.*[0]`, `($.* == 1) is unknown`, `$.*.keyvalue().key`, `$.* ? (@.type() == "string").integer()`, `$.*.string().number()`,
 			// .keyvalue() walks the members of an object too - in existence mode as well as with a result list
-			`exists($.keyvalue().value.double())`, `$.keyvalue().value.double()`, `$ ? (exists(@.keyvalue().value.integer()))`, `$.keyvalue().value.datetime()`, `($.keyvalue().value > 1) is unknown`, `$.keyvalue() ? (@.value.double() > 0).key`, `$.*.keyvalue().value.abs()`, `strict $.keyvalue().value.a`}
-		docs := []string{`{"a":1,"b":"x"}`, `{"b":"x","a":1,"c":[1],"d":{"a":2}}`, `{"k1":"2015-08-01","k2":1,"k3":"12:00:00","k4":null}`, `{"a":{"a":1,"b":"x"},"b":{"a":"x","b":1}}`, `[{"a":1,"b":"x"},{"a":"x","b":1}]`, `{"x":"xa","y":1,"z":["xb"]}`}
+			`exists($.keyvalue().value.double())`, `$.keyvalue().value.double()`, `$ ? (exists(@.keyvalue().value.integer()))`, `$.keyvalue().value.datetime()`, `($.keyvalue().value > 1) is unknown`, `$.keyvalue() ? (@.value.double() > 0).key`, `$.*.keyvalue().value.abs()`, `strict $.keyvalue().value.a`,
+			// objects below the first level of a recursive descent (their members are listed by code of their own)
+			`$.**{2}.double()`, `exists($.**{2 to last}.double())`, `$.**{3}.double()`, `$.**{2 to 3} ? (@.type() != "object" && @.type() != "array").integer()`, `strict $.**{2}.abs()`, `$ ? (exists(@.**{2}.double()))`, `($.**{2} > 0) is unknown`, `$.**{2 to last}.datetime()`}
+		docs := []string{`{"a":1,"b":"x"}`, `{"b":"x","a":1,"c":[1],"d":{"a":2}}`, `{"k1":"2015-08-01","k2":1,"k3":"12:00:00","k4":null}`, `{"a":{"a":1,"b":"x"},"b":{"a":"x","b":1}}`, `[{"a":1,"b":"x"},{"a":"x","b":1}]`, `{"x":"xa","y":1,"z":["xb"]}`,
+			`{"p":{"q":{"a":1,"b":"x","c":"2015-08-01"},"r":{"a":"x","b":1}}}`, `[[{"a":1,"b":"x"}],[{"a":"x","b":1}]]`}
 		i := 0
 		for _, p := range paths {
 			for _, d := range docs {
